@@ -10,7 +10,11 @@ int fiber_barrier_init(fiber_barrier_t* barrier, uint32_t count) {
   assert(count > 0);
   barrier->count = count;
   barrier->counter = 0;
-  if (!mpsc_fifo_init(&barrier->waiters)) {
+  if (!mpsc_fifo_init(&barrier->waiters[0])) {
+    return FIBER_ERROR;
+  }
+  if (!mpsc_fifo_init(&barrier->waiters[1])) {
+    mpsc_fifo_destroy(&barrier->waiters[0]);
     return FIBER_ERROR;
   }
   return FIBER_SUCCESS;
@@ -18,19 +22,23 @@ int fiber_barrier_init(fiber_barrier_t* barrier, uint32_t count) {
 
 void fiber_barrier_destroy(fiber_barrier_t* barrier) {
   assert(barrier);
-  mpsc_fifo_destroy(&barrier->waiters);
+  mpsc_fifo_destroy(&barrier->waiters[0]);
+  mpsc_fifo_destroy(&barrier->waiters[1]);
 }
 
 int fiber_barrier_wait(fiber_barrier_t* barrier) {
   assert(barrier);
 
   uint64_t const new_value = atomic_fetch_add(&barrier->counter, 1) + 1;
+  // arrivals (k-1)*count+1 .. k*count form round k
+  mpsc_fifo_t* const waiters =
+      &barrier->waiters[((new_value - 1) / barrier->count) & 1];
   if (new_value % barrier->count == 0) {
-    fiber_manager_wake_from_mpsc_queue(fiber_manager_get(), &barrier->waiters,
+    fiber_manager_wake_from_mpsc_queue(fiber_manager_get(), waiters,
                                        barrier->count - 1);
     return FIBER_BARRIER_SERIAL_FIBER;
   } else {
-    fiber_manager_wait_in_mpsc_queue(fiber_manager_get(), &barrier->waiters);
+    fiber_manager_wait_in_mpsc_queue(fiber_manager_get(), waiters);
     return 0;
   }
 }
